@@ -1111,6 +1111,9 @@ impl UnifiedCommandExecutor {
                 let count_val = count.unwrap_or(1);
                 let mut popped = Vec::new();
                 
+                // as the direct command: meet the key's type even when count is 0
+                self.storage.zcard(db, &key)?;
+                
                 for _ in 0..count_val {
                     // Get the member with lowest score (rank 0)
                     let members = self.storage.zrange(db, &key, 0, 0, false)?;
@@ -1135,6 +1138,9 @@ impl UnifiedCommandExecutor {
             SortedSetCommand::ZPopMax { key, count } => {
                 let count_val = count.unwrap_or(1);
                 let mut popped = Vec::new();
+                
+                // as the direct command: meet the key's type even when count is 0
+                self.storage.zcard(db, &key)?;
                 
                 for _ in 0..count_val {
                     // Get the member with highest score (rank -1)
